@@ -113,6 +113,7 @@ type vfProp struct {
 
 	run    func(t *testing.T)
 	replay func(raw []byte) (*vfCtx, error)
+	fuzz   func(t *testing.T, data []byte) // rapid.MakeFuzz form (coverage-guided search over the same generator)
 }
 
 var vfRegistry = map[string]*vfProp{}
@@ -146,7 +147,28 @@ func vfRapid[C any](name, rule string, quick, thorough, shards int, gen func(*ra
 		}
 		return vfEvalCtx(c, check), nil
 	}
+	p.fuzz = rapid.MakeFuzz(func(rt *rapid.T) {
+		c := gen(rt)
+		ctx := vfEvalCtx(c, check)
+		for _, f := range ctx.findings {
+			if vfIsKnown(f.Sig) {
+				continue
+			}
+			raw, _ := json.Marshal(c)
+			rt.Fatalf("VFVIOLATION prop=%s sig=%s: %s\nVFCASE %s", name, f.Sig, f.Msg, raw)
+		}
+	})
 	vfRegister(p)
+}
+
+// FuzzVF_Rapid drives the rapid generator of the property named by VF_PROP with Go's native
+// coverage-guided fuzzer (thorough tier): the fuzzer's bytes are the generator's entropy.
+func FuzzVF_Rapid(f *testing.F) {
+	p := vfRegistry[os.Getenv("VF_PROP")]
+	if p == nil || p.fuzz == nil {
+		f.Skip("VF_PROP does not name a rapid property")
+	}
+	f.Fuzz(p.fuzz)
 }
 
 // vfEnum registers a bounded-exhaustive enumerator. enum must emit the cases of shard
